@@ -450,7 +450,7 @@ pub fn cmd_c05(tier: &str, out: &str) {
         }
     });
     // long runs through push decoder, decode(), streaming and readers (counter widths); RLE description only
-    let longs: Vec<usize> = if tier == "thorough" { vec![255, 256, 257, 65535, 65536, 65537, 131073, 1 << 22] } else { vec![256, 65535, 65536, 65537] };
+    let longs: Vec<usize> = if tier == "thorough" { vec![255, 256, 257, 65535, 65536, 65537, 131073, 1 << 20, 1 << 22] } else { vec![256, 65535, 65536, 65537, 1 << 20] };
     for n in longs {
         for kind in 0..4 {
             let mut s: Vec<u8> = match kind {
@@ -460,6 +460,7 @@ pub fn cmd_c05(tier: &str, out: &str) {
                 _ => START.iter().cloned().chain(std::iter::repeat(0u8).take(n)).collect(), // long zero run inside an unterminated frame
             };
             s.extend(frame(&[]));
+            let _ = std::fs::write(&hb_path, format!("{{\"cap\":-5,\"long\":[{},{}],\"T\":{},\"e\":[[-1,15]],\"note\":\"the harness died or was killed while running this long stimulus (kind 0 noise run, 1 long payload, 2 long 0x1b payload, 3 long zero run) through all front-ends\"}}", kind, n, s.len()));
             let obs = all_frontends(&s, cap_at_least(n.min(70000)), false);
             for (_, id, e) in obs {
                 let bad = e.iter().any(|x| x[1] == 8 || x[1] == 12);
